@@ -686,7 +686,7 @@ def keys_of(prefix):
     return ks
 
 
-FLENS = (10, 1023, 1024, 1025, 2500, 5000)         # formatted lengths around the 1024 / 2048 / 4096 buffer steps of DYNAMIC_VSPRINTF
+FLENS = (10, 255, 256, 257, 1023, 1024, 1025, 2500, 5000)         # formatted lengths around the 1024 / 2048 / 4096 buffer steps of DYNAMIC_VSPRINTF
 
 
 def gen_tree(rng, quick):
